@@ -316,10 +316,14 @@ Fixpoint decode_script (ha : bool) (l : list Z) : list instr :=
   | _ => []
   end.
 
+(* styles 10..16 are styles 0..6 issued from inside a running coroutine (the consumer thread's resumption queue is
+   active): the generator must behave exactly the same *)
+Definition norm_style (y : Z) : Z := if (10 <=? y) && (y <=? 16) then y - 10 else y.
+
 Definition decode (ha : bool) (l : list Z) : op :=
   match l with
   | 0 :: sc => if Nat.even (length sc) then OCreate (decode_script ha sc) else OBad
-  | [1; y; a] => OAccess y a
+  | [1; y; a] => OAccess (norm_style y) a
   | [2; k; v; _] => OComplete k v
   | [3] => ODestroy
   | [4] => OPeek
@@ -603,7 +607,8 @@ Fixpoint genc_from (ha : bool) (s : sys) (ops : list (list Z)) : list obs :=
   | w :: t =>
       match w with
       | 9 :: _ => genc_from ha s t
-      | [1; y; a] =>
+      | [1; y0; a] =>
+          let y := if (10 <=? y0) && (y0 <=? 18) then y0 - 10 else y0 in
           if y =? 7 then
             if negb ha && live s then let '(s1, os) := range_for (S (S (length (pc s)))) ha s in os ++ genc_from ha s1 t
             else rejected :: genc_from ha s t
@@ -624,7 +629,8 @@ Definition genc_run (ha : bool) (ops : list (list Z)) : list (list Z) :=
 Fixpoint genc_args (ops : list (list Z)) : list Z :=
   match ops with
   | [] => []
-  | [1; y; a] :: t => if y =? 7 then genc_args t
+  | [1; y0; a] :: t => let y := if (10 <=? y0) && (y0 <=? 18) then y0 - 10 else y0 in
+                      if y =? 7 then genc_args t
                       else if y =? 8 then map (fun k => a + Z.of_nat k) (seq 0 64) ++ genc_args t   (* the chain is the last consuming op of a case *)
                       else a :: genc_args t
   | _ :: t => genc_args t
@@ -643,3 +649,16 @@ Definition genc_oracle (ha : bool) (wops wobs : list (list Z)) : bool :=
       && negb (existsb (fun o => match o_res o with RPend | RNReady => true | _ => false end) acc)
   | _ => forallb (fun o => negb (ok o)) os
   end.
+
+(* ---------- engine gent: generator<MV> with a move-observable value type.  Script kind 1 yields a temporary, kind 10
+   adds its operand to a local variable of the body and yields that local as an lvalue.  Yielding must not change the
+   body's variable, so the k-th such yield delivers the running sum: the script is translated accordingly and the
+   model / oracle of generator<int> apply unchanged. ---------- *)
+Fixpoint xlate_script_t (acc : Z) (l : list Z) : list Z :=
+  match l with
+  | k :: a :: t => if k =? 10 then 1 :: (acc + a) :: xlate_script_t (acc + a) t else k :: a :: xlate_script_t acc t
+  | _ => l
+  end.
+Definition xlate_t (w : list Z) : list Z := match w with 0 :: sc => 0 :: xlate_script_t 0 sc | _ => w end.
+Definition gent_run (ops : list (list Z)) : list (list Z) := gen_run false (map xlate_t ops).
+Definition gent_oracle (wops wobs : list (list Z)) : bool := gen_oracle false (map xlate_t wops) wobs.
